@@ -59,12 +59,14 @@ type LinBlob struct {
 }
 
 type strReader struct {
-	s string
-	i int
+	s   string
+	i   int
+	eof bool // an io.EOF was handed out: only then has blobserver.Receive's checkHashReader verified the digest
 }
 
 func (r *strReader) Read(p []byte) (int, error) {
 	if r.i >= len(r.s) {
+		r.eof = true
 		return 0, io.EOF
 	}
 	n := copy(p, r.s[r.i:])
@@ -317,8 +319,10 @@ func seqHistory(st LinStorage, blobs []LinBlob, have uint, steps int, readsOnly 
 		switch kind {
 		case LinReceive:
 			i := vrt.Choice(len(blobs))
-			sb, err := st.ReceiveBlob(ctx, blobs[i].Ref, &strReader{s: blobs[i].Data})
+			src := &strReader{s: blobs[i].Data}
+			sb, err := st.ReceiveBlob(ctx, blobs[i].Ref, src)
 			vrt.Assert(err == nil, "receive succeeds")
+			vrt.Assert(src.eof, "a store acknowledges an upload only after reading its source to the end (the upload's digest is verified at EOF, also for a blob the store already holds)")
 			vrt.Assert(sb.Ref == blobs[i].Ref && int(sb.Size) == len(blobs[i].Data), "receive acknowledges the blob with its true size")
 			have |= 1 << uint(i)
 		case LinFetch:
